@@ -16,10 +16,10 @@ checks = {
  "C10": ("structural invariant monitor on built trees + call-depth trace monitor inside Pull() + stack-capped child builds", "7 C10"),
  "C11": ("reference-model monitor under random binding environments + renaming/re-serialisation invariance + user-function trace monitor", "7 C11"),
  "C12": ("reference-model monitor for node functions from every context node", "7 C12"),
- "C13": ("history monitor: before/after deep snapshots of tree, caller-held NodeSets (all cap elements), binding maps, Grammar structural hash; repeat-execution determinism", "7 C13"),
+ "C13": ("history monitor: before/after deep snapshots of tree, caller-held NodeSets (all cap elements), binding maps, Grammar structural hash; repeat-execution determinism across per-call function libraries; cases run serially in shard child processes so library globals are observable", "7 C13"),
  "C14": ("Go race detector (GORACE log files, de-duplicated) over barrier-started concurrent Exec rounds + serial/concurrent result comparison + CLI -c N vs -c 1 block comparison under injected yields", "7 C14"),
- "C15": ("crash/abort monitor: hostile inputs in journaling child processes, recovered panics, (nil,nil) and 'xpath query panic' detection", "7 C15"),
- "C16": ("README-mapping reference monitor (parallel walk) + encoding/json as error oracle for every prefix and token edits", "7 C16"),
+ "C15": ("crash/abort monitor: hostile inputs in journaling child processes, recovered panics, (nil,nil) and 'xpath query panic' detection, per-case processor-time budget (rusage) as the termination monitor", "7 C15"),
+ "C16": ("README-mapping reference monitor (parallel walk) + encoding/json as error oracle for every prefix and token edits; inputs delivered whole and piecewise (chunked / one-byte / cut-after-closer readers)", "7 C16"),
  "C17": ("html.Parse DOM as reference, parallel-walk monitor over generated tag soup", "7 C17"),
  "C18": ("split/unsplit composition relation (library vs library) + reference-model monitor from every start node", "7 C18"),
  "C19": ("reflection-based expected-value monitor computed from separate Exec calls; error/panic monitor for unfillable targets", "7 C19"),
